@@ -124,3 +124,64 @@ Theorem C04_simplify_chain :
       m_out (eval_tape sem t inputs e0 out0) = m_out (eval_tape sem t' inputs e0' out0).
 Proof. intros V I sem Hc inputs out0 ao m t t'. exact (simplify_chain sem Hc inputs out0 ao m t t'). Qed.
 Print Assumptions C04_simplify_chain.
+
+(* ---- choice soundness: when the interval evaluation of min / max / and / or records Left or Right, the point result equals that operand at every point of the box ---- *)
+From Coq Require Import Reals Lra Lia Bool.
+From FV Require Import Ops Tape Interval Related ER ERLemmas IntervalSound IntervalTotal IntervalLibm IntervalTape
+     IntervalTransform IntervalTrig IntervalRem IntervalAtan2 IntervalTotal2 IntervalTapeTotal IntervalAll.
+Import ListNotations.
+
+Theorem C04_choice_sound :
+  forall (rnd : er -> er) (mix : er -> er -> er) (op : bop) (a b : interval er) (x y : er),
+       valid a ->
+       valid b ->
+       encl a x ->
+       encl b y ->
+       x <> ENaN ->
+       y <> ENaN -> choice_ok (i_choice (er_fl_gen rnd mix) op a b) (er_bin mix op x y) x y.
+Proof. exact (@choice_sound). Qed.
+Print Assumptions C04_choice_sound.
+
+Theorem C04_imin_choice_sound :
+  forall (rnd : er -> er) (mix : er -> er -> er) (a b : interval er) (x y : er),
+       valid a ->
+       valid b ->
+       encl a x ->
+       encl b y ->
+       x <> ENaN ->
+       y <> ENaN -> choice_ok (snd (imin_choice (er_fl_gen rnd mix) a b)) (er_pmin x y) x y.
+Proof. exact (@imin_choice_sound). Qed.
+Print Assumptions C04_imin_choice_sound.
+
+Theorem C04_imax_choice_sound :
+  forall (rnd : er -> er) (mix : er -> er -> er) (a b : interval er) (x y : er),
+       valid a ->
+       valid b ->
+       encl a x ->
+       encl b y ->
+       x <> ENaN ->
+       y <> ENaN -> choice_ok (snd (imax_choice (er_fl_gen rnd mix) a b)) (er_pmax x y) x y.
+Proof. exact (@imax_choice_sound). Qed.
+Print Assumptions C04_imax_choice_sound.
+
+Theorem C04_iand_choice_sound :
+  forall (rnd : er -> er) (mix : er -> er -> er) (a b : interval er) (x y : er),
+       valid a ->
+       valid b ->
+       encl a x ->
+       encl b y ->
+       x <> ENaN ->
+       y <> ENaN -> choice_ok (snd (iand_choice (er_fl_gen rnd mix) a b)) (er_and x y) x y.
+Proof. exact (@iand_choice_sound). Qed.
+Print Assumptions C04_iand_choice_sound.
+
+Theorem C04_ior_choice_sound :
+  forall (rnd : er -> er) (mix : er -> er -> er) (a b : interval er) (x y : er),
+       valid a ->
+       valid b ->
+       encl a x ->
+       encl b y ->
+       x <> ENaN ->
+       y <> ENaN -> choice_ok (snd (ior_choice (er_fl_gen rnd mix) a b)) (er_or x y) x y.
+Proof. exact (@ior_choice_sound). Qed.
+Print Assumptions C04_ior_choice_sound.
